@@ -271,7 +271,13 @@ var unitSpan = map[string]int64{
 	"YEAR":        9000,
 }
 
-func genInterval(rt *rapid.T, label string, maxFixedMicros int64) interval {
+// genInterval draws an interval. monthBias (the value lies on day 29…31) turns a third of the
+// draws into a small month-based interval, so that end-of-month clamping is reached often.
+func genInterval(rt *rapid.T, label string, maxFixedMicros int64, monthBias bool) interval {
+	if monthBias && rapid.IntRange(0, 2).Draw(rt, label+"clampBias") == 0 {
+		u := rapid.SampledFrom(units[6:]).Draw(rt, label+"unit")
+		return interval{u, int64(rapid.IntRange(-14, 14).Draw(rt, label+"n"))}
+	}
 	u := rapid.SampledFrom(units).Draw(rt, label+"unit")
 	var n int64
 	switch rapid.IntRange(0, 6).Draw(rt, label+"nclass") {
